@@ -143,6 +143,35 @@ def run_unit(unit, tier):
     res = run_verus_cached(unit, None, g['text'], rlimit)
     out['verus'] = dict(cmd=res['cmd'], wall_s=res['wall_s'], smt_ms=res['smt_ms'], cached=res['cached'], version=res.get('version'),
                         verified=res.get('verified'))
+    if res['status'] == 'undecided' and res.get('errors'):
+        # the generated file does not compile. When every compiler error lies inside the extracted BODY of some function(s), those functions are replaced by their contract
+        # (assumed, recorded in skipped_fns) and the rest of the unit is checked: a failed obligation of a function that WAS extracted is still a failed obligation.
+        # Only a `fail` of that second run is used; otherwise the unit stays undecided as before.
+        bad, located = set(), True
+        for e in res['errors']:
+            f_ = None
+            lines_ = [ln for (ln, lab, prim) in e['lines'] if prim] or [ln for (ln, lab, prim) in e['lines']]
+            for ln in lines_:
+                if ln and 1 <= ln <= len(g['origin']):
+                    o = g['origin'][ln - 1]
+                    if o.get('kind') == 'src' and o.get('fn') and not str(o['fn']).startswith('macro '):
+                        f_ = o['fn']
+            if f_:
+                bad.add(f_)
+            else:
+                located = False
+        if bad and located and len(bad) < len(g['functions']):
+            try:
+                g2 = gen.generate(REPO, tmpl, None, isolate=True, stub=bad)
+                res2 = run_verus_cached(unit, None, g2['text'], rlimit)
+            except (extract.LostAnchor, gen.TemplateError, extract.LexError):
+                res2 = None
+            if res2 and res2['status'] == 'fail':
+                out['stubbed_fns'] = sorted(bad)
+                out['stub_reason'] = '; '.join(e['message'][:160] for e in res['errors'][:3])
+                g, res = g2, res2
+                out['skipped_fns'] = g.get('skipped', [])
+                out['verus'] = dict(cmd=res['cmd'], wall_s=res['wall_s'], smt_ms=res['smt_ms'], cached=res['cached'], version=res.get('version'), verified=res.get('verified'))
     groups = clause_groups(g)
     fnames = set()
     labs_by_fn = {}
